@@ -57,6 +57,9 @@ def write_replay(prop, seed, payload):
 
 def write_evidence(prop, tier, seed, cov, assumptions, wall, violations):
     d = os.path.join(common.ROOT, 'evidence')
+    if os.path.realpath(common.REPO) != '/repo':
+        # a run against a scratch copy (seeded mutant, refactoring variant) never overwrites the evidence of /repo
+        d = os.path.join(common.ROOT, '.scratch', 'evidence-other-tree')
     os.makedirs(d, exist_ok=True)
     ev = dict(property_id=prop, tier=tier, seed=seed, level='proof', coverage=cov, assumptions=assumptions,
               wall_s=round(wall, 2), violations=violations)
